@@ -2,7 +2,7 @@
 //%% include inc/varlabel.rs
 //%% include prelude/pvo.rs
 
-#[derive(Clone, Copy)]
+#[derive(Clone, Copy, Debug)]
 //%% extract src/repr/bdd.rs :: - :: enum BddPtr
 //%% @pub
 //%% end
@@ -10,26 +10,27 @@ use BddPtr::*;
 
 // R-scratch: the two RefCell scratch fields (`data`, `semantic_hash`) are deleted; they are ignored by
 // equality and hashing and never read by the functions under contract.
+#[derive(Debug)]
 //%% extract src/repr/bdd.rs :: - :: struct BddNode
 //%% @pub
 //%% @rewrite 1 /\n    \/\/\/ scratch space used for caching data during traversals; ignored during\n    \/\/\/ equality checking and hashing\n    data: RefCell<Option<Box<dyn Any>>>,\n    semantic_hash: RefCell<Option<u128>>,/ => 
 //%% end
 
-/// THE definition of "the Boolean function a diagram denotes" (independent of any library evaluator)
-pub open spec fn node_sem(n: BddNode, env: Env) -> bool
-    decreases n
-{
-    if env(n.var.0) { ptr_sem(n.high, env) } else { ptr_sem(n.low, env) }
-}
+/// THE definition of "the Boolean function a diagram denotes" (independent of any library evaluator):
+/// a node tests its variable, `Compl` negates, the two terminals are the constants.
 pub open spec fn ptr_sem(p: BddPtr, env: Env) -> bool
     decreases p
 {
     match p {
-        BddPtr::Compl(n) => !node_sem(*n, env),
-        BddPtr::Reg(n) => node_sem(*n, env),
+        BddPtr::Compl(n) => !(if env(n.var.0) { ptr_sem(n.high, env) } else { ptr_sem(n.low, env) }),
+        BddPtr::Reg(n) => (if env(n.var.0) { ptr_sem(n.high, env) } else { ptr_sem(n.low, env) }),
         BddPtr::PtrTrue => true,
         BddPtr::PtrFalse => false,
     }
+}
+/// denotation of a node value that is not (yet) behind a pointer
+pub open spec fn node_sem(n: BddNode, env: Env) -> bool {
+    if env(n.var.0) { ptr_sem(n.high, env) } else { ptr_sem(n.low, env) }
 }
 pub open spec fn is_node(p: BddPtr) -> bool { p is Reg || p is Compl }
 pub open spec fn node_of<'a>(p: BddPtr<'a>) -> BddNode<'a> {
@@ -76,8 +77,6 @@ impl<'a> BddPtr<'a> {
             r == (if *self is Compl { (node_of(*self).low).neg_s() } else { node_of(*self).low }),
             // the low cofactor of the *pointer's* function
             forall|env: Env| #[trigger] tr(env) ==> (!env(node_of(*self).var.0) ==> ptr_sem(r, env) == ptr_sem(*self, env)),
-//%% @entry
-        proof { reveal_with_fuel(ptr_sem, 2); reveal_with_fuel(node_sem, 2); }
 //%% end
 
 //%% extract src/repr/bdd.rs :: impl<'a> BddPtr<'a> :: fn high
@@ -87,8 +86,6 @@ impl<'a> BddPtr<'a> {
         ensures
             r == (if *self is Compl { (node_of(*self).high).neg_s() } else { node_of(*self).high }),
             forall|env: Env| #[trigger] tr(env) ==> (env(node_of(*self).var.0) ==> ptr_sem(r, env) == ptr_sem(*self, env)),
-//%% @entry
-        proof { reveal_with_fuel(ptr_sem, 2); reveal_with_fuel(node_sem, 2); }
 //%% end
 
 //%% extract src/repr/bdd.rs :: impl<'a> BddPtr<'a> :: fn low_raw
@@ -111,15 +108,6 @@ impl<'a> BddPtr<'a> {
         ensures b == !is_node(*self),
 //%% end
 
-    /// spec mirror of `neg` (proved equal to it below)
-    pub open spec fn neg_s(self) -> BddPtr<'a> {
-        match self {
-            BddPtr::Compl(x) => BddPtr::Reg(x),
-            BddPtr::Reg(x) => BddPtr::Compl(x),
-            BddPtr::PtrTrue => BddPtr::PtrFalse,
-            BddPtr::PtrFalse => BddPtr::PtrTrue,
-        }
-    }
 }
 
 pub proof fn lemma_neg_sem(p: BddPtr, env: Env)
@@ -130,6 +118,15 @@ impl<'a> DDNNFPtr for BddPtr<'a> {
     open spec fn sem(self, env: Env) -> bool { ptr_sem(self, env) }
     open spec fn is_true_s(self) -> bool { self is PtrTrue }
     open spec fn is_false_s(self) -> bool { self is PtrFalse }
+    /// spec mirror of `neg` (the extracted `neg` below is proved to return exactly this)
+    open spec fn neg_s(self) -> BddPtr<'a> {
+        match self {
+            BddPtr::Compl(x) => BddPtr::Reg(x),
+            BddPtr::Reg(x) => BddPtr::Compl(x),
+            BddPtr::PtrTrue => BddPtr::PtrFalse,
+            BddPtr::PtrFalse => BddPtr::PtrTrue,
+        }
+    }
 
     proof fn eq_is_sem() { axiom_bddptr_eq(); }
 
@@ -158,9 +155,6 @@ impl<'a> DDNNFPtr for BddPtr<'a> {
 //%% end
 
 //%% extract src/repr/bdd.rs :: impl<'a> DDNNFPtr<'a> for BddPtr<'a> :: fn neg
-//%% @ret r
-//%% @spec
-        ensures r == self.neg_s(),
 //%% end
 }
 
